@@ -269,6 +269,24 @@ def _one(r, shape, n, frame, colour, ov):
         r.fail(vcell("assemble"), "assemble() reproduces the base array", exception=repr(e), **detail)
     r.check(np.array_equal(base.img, pristine), vcell("base-untouched"), "building and assembling leave the base array as it was", **detail)
 
+    # ---- call history on the same object: one patch is replaced (set_image), then the image is
+    # assembled again.  Interiors still tile the image: exactly the interior of that patch changes.
+    try:
+        npi, npj = int(P.num_patches[0]), int(P.num_patches[1])
+        pi_, pj_ = npi - 1, 0
+        old = np.array(P(pi_, pj_).img)
+        if old.size:
+            P.set_image(np.array(old) * 0 + np.asarray(7, dtype=old.dtype), pi_, pj_)
+            out2 = P.assemble()
+            want2 = pristine.copy()
+            c = np.asarray(P.global_corners_voxels[pi_][pj_], dtype=int)
+            r0, r1, c0, c1 = c[:, 0].min(), c[:, 0].max(), c[:, 1].min(), c[:, 1].max()
+            want2[r0:r1, c0:c1] = 7
+            r.check(out2.img.shape == want2.shape and np.array_equal(out2.img, want2), vcell("assemble-after-set_image"), "after replacing one patch, re-assembly changes exactly the interior of that patch (no double cover through shared memory)", patch=[pi_, pj_], **detail)
+            r.check(np.array_equal(base.img, pristine), vcell("base-untouched"), "set_image leaves the base array as it was", **detail)
+    except (AssertionError, ValueError) as e:
+        r.fail(vcell("assemble-after-set_image"), "set_image followed by assemble works", exception=repr(e), **detail)
+
     # ---- voxel <-> metric agreement under the base frame (own affine map)
     def to_xy(vox):  # (..., 2) (row, col) -> (..., 2) (x, y)
         vox = np.asarray(vox, dtype=float)
